@@ -1,11 +1,177 @@
-import Ruint.Model.Macro
-import Ruint.Spec.Macro
+import Ruint.Lemmas.Macro
 
+/-!
+# C19 — `uint!` literals equal run-time parsing of the same digits; bad literals are rejected
+
+Property theorems only, about the model `Ruint.Macro.*` of `ruint-macro/src/lib.rs` that the correspondence driver
+executes against the real macro (compile probes and direct calls of its private parsers).
+
+A literal is `value ++ t :: bitsTxt` where `value = ⟨prefix⟩ ++ body` (`HasBase value base body`: prefix `0x`/`0o`/`0b`
+or none), `body` consists of hexadecimal digit characters and `_` (`IsBody`), `t` is `U` or `B` and `bitsTxt` is a
+non-empty run of decimal digits denoting a width `< 2^64`. `digitVals body` are the digit values, most significant
+first. All statements hold for **every** such text: any number of digits, any width, any underscore placement.
+-/
 namespace Ruint.C19
-open Ruint Ruint.Macro
+open Ruint Ruint.Radix Ruint.Macro
 
-/-- the token walk leaves non-literal tokens untouched (placeholder while the lemma files are being written). -/
-theorem transform_other (s : List Char) : transformTree (.other s) = .other s := by
+/-- the type named by the suffix letter -/
+def tyOf (t : Char) : BaseType := if t = 'U' then .uint else .bits
+
+/-- the suffix is recognised: right-most `U`/`B` followed by a `usize`; the hexadecimal-`B` rule does not apply. -/
+theorem suffix_recognised (value body bitsTxt : List Char) (t : Char) (base : ℕ)
+    (hbase : HasBase value base body) (hbody : IsBody body) (ht : t = 'U' ∨ t = 'B')
+    (hne : bitsTxt ≠ []) (hdec : ∀ c ∈ bitsTxt, isDec c = true) (hn : decVal bitsTxt < 2 ^ 64)
+    (hhexB : ¬ (t = 'B' ∧ base = 16 ∧ value.getLast? ≠ some '_')) :
+    parseSuffix (value ++ t :: bitsTxt) = some (tyOf t, decVal bitsTxt, value) := by
+  unfold parseSuffix
+  rw [splitLast_spec value t bitsTxt ht (isDec_noUB bitsTxt hdec)]
+  simp only [parseUsize_dec bitsTxt hne hdec hn]
+  have hx := take_two_hex value body base hbase hbody
+  have : ¬ ((if t = 'U' then BaseType.uint else BaseType.bits) = BaseType.bits ∧ value.take 2 = ['0', 'x']
+      ∧ value.getLast? ≠ some '_') := by
+    rintro ⟨h1, h2, h3⟩
+    apply hhexB
+    refine ⟨?_, hx.mp h2, h3⟩
+    rcases ht with rfl | rfl
+    · simp at h1
+    · rfl
+  simp only [this, if_false, tyOf]
+
+/-- **valid literal**: all digits below the base and the denoted value below `2^bits`. The macro expands to
+    `<Uint|Bits>::<bits, nlimbs bits>::from_limbs(limbs)` where `limbs` is the canonical limb array of exactly that
+    width whose value is the positional value of the digits — and the run-time parser (`from_str_radix`, C09 model) on
+    the same digit text returns the same limbs. -/
+theorem literal_valid (value body bitsTxt : List Char) (t : Char) (base : ℕ)
+    (hbase : HasBase value base body) (hbody : IsBody body) (ht : t = 'U' ∨ t = 'B')
+    (hne : bitsTxt ≠ []) (hdec : ∀ c ∈ bitsTxt, isDec c = true) (hn : decVal bitsTxt < 2 ^ 64)
+    (hhexB : ¬ (t = 'B' ∧ base = 16 ∧ value.getLast? ≠ some '_'))
+    (hvalid : ∀ d ∈ digitVals body, d < base)
+    (hfit : Nat.ofDigits base (digitVals body).reverse < 2 ^ decVal bitsTxt) :
+    ∃ limbs, transformLiteral (value ++ t :: bitsTxt) = .ok (tyOf t) (decVal bitsTxt) limbs
+      ∧ Canon (decVal bitsTxt) limbs
+      ∧ val limbs = Nat.ofDigits base (digitVals body).reverse
+      ∧ fromStrRadix (decVal bitsTxt) base body = .ok limbs := by
+  obtain ⟨hb2, hb16⟩ := hbase.base_le
+  have hbW : base < W := by unfold W; omega
+  obtain ⟨l, d1, d2, d3⟩ := digitLoop_ok base hbW body [0] hbody
+    (AllLt.cons W_pos AllLt.nil) hvalid
+  have hv : val l = Nat.ofDigits base (digitVals body).reverse := by
+    rw [d3, hornerFrom_eq]; simp
+  obtain ⟨p1, _⟩ := padLimbs_spec (decVal bitsTxt) l d2
+  obtain ⟨l2, q1, q2, q3⟩ := p1 (by rw [hv]; exact hfit)
+  refine ⟨l2, ?_, q2, by rw [q3, hv], ?_⟩
+  · unfold transformLiteral
+    rw [suffix_recognised value body bitsTxt t base hbase hbody ht hne hdec hn hhexB]
+    simp only [parseDigits_eq value body base hbase hbody, d1, q1]
+  · have : ¬ base > 64 := by omega
+    simp only [fromStrRadix, this, if_false, scan_body base (by omega) body hbody]
+    rw [(fromBaseBE_ok_iff (decVal bitsTxt) base hb2 (digitVals body) l2).mpr ⟨hvalid, q2, by rw [q3, hv]⟩]
+
+/-- **value too large**: all digits valid but the denoted value is `≥ 2^bits`: compile-time error
+    (`Value too large for …`). -/
+theorem literal_too_large (value body bitsTxt : List Char) (t : Char) (base : ℕ)
+    (hbase : HasBase value base body) (hbody : IsBody body) (ht : t = 'U' ∨ t = 'B')
+    (hne : bitsTxt ≠ []) (hdec : ∀ c ∈ bitsTxt, isDec c = true) (hn : decVal bitsTxt < 2 ^ 64)
+    (hhexB : ¬ (t = 'B' ∧ base = 16 ∧ value.getLast? ≠ some '_'))
+    (hvalid : ∀ d ∈ digitVals body, d < base)
+    (hbig : 2 ^ decVal bitsTxt ≤ Nat.ofDigits base (digitVals body).reverse) :
+    transformLiteral (value ++ t :: bitsTxt) = .errLarge := by
+  obtain ⟨_, hb16⟩ := hbase.base_le
+  have hbW : base < W := by unfold W; omega
+  obtain ⟨l, d1, d2, d3⟩ := digitLoop_ok base hbW body [0] hbody
+    (AllLt.cons W_pos AllLt.nil) hvalid
+  have hv : val l = Nat.ofDigits base (digitVals body).reverse := by
+    rw [d3, hornerFrom_eq]; simp
+  obtain ⟨_, p2⟩ := padLimbs_spec (decVal bitsTxt) l d2
+  unfold transformLiteral
+  rw [suffix_recognised value body bitsTxt t base hbase hbody ht hne hdec hn hhexB]
+  simp only [parseDigits_eq value body base hbase hbody, d1, p2 (by rw [hv]; exact hbig)]
+
+/-- **digit not valid in the base** (the first such digit, after digits that are fine; this includes a digit *equal*
+    to the base): compile-time error (`Invalid digit … in base …`). -/
+theorem literal_bad_digit (value pre post bitsTxt : List Char) (c t : Char) (base d : ℕ)
+    (hbase : HasBase value base (pre ++ c :: post)) (hbody : IsBody (pre ++ c :: post)) (ht : t = 'U' ∨ t = 'B')
+    (hne : bitsTxt ≠ []) (hdec : ∀ x ∈ bitsTxt, isDec x = true) (hn : decVal bitsTxt < 2 ^ 64)
+    (hhexB : ¬ (t = 'B' ∧ base = 16 ∧ value.getLast? ≠ some '_'))
+    (hpre : ∀ x ∈ digitVals pre, x < base) (hc : hexDigit c = some d) (hge : base ≤ d) :
+    transformLiteral (value ++ t :: bitsTxt) = .errDigit c base := by
+  obtain ⟨_, hb16⟩ := hbase.base_le
+  have hbW : base < W := by unfold W; omega
+  have hpreB : IsBody pre := fun x hx => hbody x (by simp [hx])
+  have := digitLoop_bad_digit base hbW pre c post [0] d hpreB (AllLt.cons W_pos AllLt.nil) hpre hc hge
+  unfold transformLiteral
+  rw [suffix_recognised value (pre ++ c :: post) bitsTxt t base hbase hbody ht hne hdec hn hhexB]
+  simp only [parseDigits_eq value _ base hbase hbody, this]
+
+/-! ## pass-through -/
+
+/-- a token without `U`/`B` anywhere (ordinary numbers, ordinary suffixes such as `u8`, …) passes through. -/
+theorem pass_no_suffix_letter (src : List Char) (h : ∀ c ∈ src, c ≠ 'U' ∧ c ≠ 'B') : transformLiteral src = .pass := by
+  unfold transformLiteral parseSuffix
+  rw [(splitLast_none_iff src).mpr h]
+
+/-- the text after the right-most `U`/`B` is not a `usize` (empty, not decimal, e.g. the closing quote of a string
+    containing `U8`, or `≥ 2^64`): the token passes through. -/
+theorem pass_not_a_width (value rest : List Char) (t : Char) (ht : t = 'U' ∨ t = 'B')
+    (hr : ∀ c ∈ rest, c ≠ 'U' ∧ c ≠ 'B') (hw : parseUsize rest = none) :
+    transformLiteral (value ++ t :: rest) = .pass := by
+  unfold transformLiteral parseSuffix
+  rw [splitLast_spec value t rest ht hr]
+  simp [hw]
+
+/-- a hexadecimal literal that merely ends in `B<digits>` without a separating underscore passes through. -/
+theorem pass_hex_B (body bitsTxt : List Char) (hdec : ∀ c ∈ bitsTxt, isDec c = true)
+    (hu : ('0' :: 'x' :: body).getLast? ≠ some '_') :
+    transformLiteral ('0' :: 'x' :: body ++ 'B' :: bitsTxt) = .pass := by
+  have hs := splitLast_spec ('0' :: 'x' :: body) 'B' bitsTxt (Or.inr rfl) (isDec_noUB bitsTxt hdec)
+  have hps : parseSuffix ('0' :: 'x' :: body ++ 'B' :: bitsTxt) = none := by
+    unfold parseSuffix
+    rw [hs]
+    cases hp : parseUsize bitsTxt with
+    | none => simp [hp]
+    | some n =>
+      have hu' : ¬ ('x' :: body).getLast? = some '_' := by simpa using hu
+      simp [hp, hu']
+  unfold transformLiteral
+  rw [hps]
+
+/-! ## the token walk -/
+
+/-- non-literal tokens are untouched. -/
+theorem walk_other (s : List Char) : transformTree (.other s) = .other s := by
   simp [transformTree]
+
+/-- groups keep their delimiter and are transformed recursively, at any nesting depth. -/
+theorem walk_group (d : ℕ) (ts : List Tok) : transformTree (.group d ts) = .group d (transformStream ts) := by
+  simp [transformTree]
+
+/-- a stream is transformed token by token, in order. -/
+theorem walk_stream (t : Tok) (ts : List Tok) : transformStream (t :: ts) = transformTree t :: transformStream ts := by
+  simp [transformStream]
+
+/-- a literal that is not ours is left exactly as it was; one that is ours is replaced by its expansion. -/
+theorem walk_literal (s : List Char) :
+    (transformLiteral s = .pass → transformTree (.lit s) = .lit s)
+    ∧ (transformLiteral s ≠ .pass → transformTree (.lit s) = .expanded (transformLiteral s)) := by
+  constructor
+  · intro h; simp [transformTree, h]
+  · intro h
+    unfold transformTree
+    cases hh : transformLiteral s <;> simp_all
+
+/-! ## non-vacuity -/
+
+example : transformLiteral "0x10U256".toList = .ok .uint 256 [16, 0, 0, 0] := by decide +kernel
+example : transformLiteral "1a_U64".toList = .errDigit 'a' 10 := by decide +kernel
+example : transformLiteral "255_U8".toList = .ok .uint 8 [255] := by decide +kernel
+example : transformLiteral "256_U8".toList = .errLarge := by decide +kernel
+example : transformLiteral "0xAB5".toList = .pass := by decide +kernel
+example : transformLiteral "0xA_B5".toList = .ok .bits 5 [10] := by decide +kernel
+example : transformLiteral "18446744073709551616_U65".toList = .ok .uint 65 [0, 1] := by decide +kernel
+example : transformLiteral "0_U0".toList = .ok .uint 0 [] := by decide +kernel
+example : transformLiteral "12u8".toList = .pass := by decide +kernel
+example : transformLiteral "\"U8\"".toList = .pass := by decide +kernel
+example : HasBase "0x10".toList 16 "10".toList := HasBase.hex _
+example : IsBody "1_000".toList := by unfold IsBody; decide
 
 end Ruint.C19
